@@ -518,6 +518,12 @@ def stream(seed, n_cases, pool_max, env_size=6):
     """yield (id, kind, text, meta)"""
     for i, t in HAND:
         yield i, "hand", t, None
+    # minimised inputs kept from earlier disagreements: corpus/eq/*.grits (queries are the Q<i> definitions)
+    import glob
+    import os
+    from . import common as C
+    for p in sorted(glob.glob(os.path.join(C.CORPUS, "eq", "*.grits"))):
+        yield "corpus:" + os.path.basename(p), "hand", open(p, "rb").read().decode("latin1"), None
     yield "hand:deep-7-8", "hand", deep(7, 8), None
     yield "hand:deep-40-41", "hand", deep(40, 41), None
     rng = random.Random(seed)
